@@ -27,8 +27,9 @@ def fill(claim, NA):
 		  "(nextEdge_conserves, pipeline shift and TP freeze preserve totals), NETWORK LEVEL (Props/NetFlow.lean): node_balance_step, edge_flow_step and "
 		  "conservation_network - along the WHOLE trajectory the simulator reports, for every well-formed network of any size, every node satisfies IL_t = IL_{t-1} + produced_t - "
 		  "orders received_t and, per supplier, RM_t = RM_{t-1} + receipt_t - produced_t, and every internal edge satisfies shipped = received + change of (in transit + held at the door) "
-		  "and ordered = shipped + change of (backordered + held); together with C02's bo_matches_il_network these are the conservation laws for whole networks (external-supplier / "
-		  "external-customer edges remain at edge level); and the composed one-period theorem for an internal edge "
+		  "and ordered = shipped + change of (backordered + held); together with C02's bo_matches_il_network these are the conservation laws for whole networks; Props/NetExt.lean adds the external edges: "
+		  "step_edge_extsupply, ext_supply_on_order_network (on every edge from the external supplier, in every reported state, on-order = what is in the pipeline) and "
+		  "ext_customer_accounting_step (backorders' + shipped = backorders + demand on every edge to the external customer); and the composed one-period theorem for an internal edge "
 		  "edge_period_conserves: for ANY order quantity, on-hand and disruption flags, shipped = received + in transit + held at door, and ordered = "
 		  "shipped + backordered + held. Tie: exact trajectory correspondence (13 conservation-relevant fields incl. the ghost 'produced' quantity "
 		  "recorded by wrapping _raw_materials_to_finished_goods) + the five conservation identities evaluated on every Python trace.", SIMNOTE)
